@@ -5,8 +5,10 @@ Nilsimsa: every byte cut."""
 import core, hashrec as H, blake2rec as B2
 
 def instantiate(name, hist, rnd, k):
-    r = H.Rec(name); r.init(); Bb = H.blockbytes(name)
+    r = H.Rec(name); Bb = H.blockbytes(name)
     wb = H.wordbytes(name); fed = 0; flag = False
+    salt = rnd.getrandbits(32 * wb) if (name in H.BLAKES and k % 2) else 0       # BLAKE: salted piecewise hashing (the salt is per epoch, not per piece)
+    r.init(salt) if salt else r.init()
     for j, c in enumerate(hist):
         op = c['op']
         if op == 'cont':
@@ -24,7 +26,7 @@ def instantiate(name, hist, rnd, k):
             n = (k % 3) * Bb + (k % 7)
             r.update(H.content(rnd, n, 0), bitlen=8 * n + 1 + (k % 9), padding=True)
         elif op == 'reset':
-            r.init(); fed = 0; flag = False
+            (r.init(salt) if salt else r.init()); fed = 0; flag = False
         # 'remove' has no counterpart on a hash object
     return r.trace(dict(kind='history', calls=[(c['op'], c['k'], c['rc']) for c in hist]))
 
@@ -68,7 +70,9 @@ def run(ctx):
     # longer messages with random aligned cuts
     for q in range(300 if big else 40):
         name = names[q % len(names)]; Bb = H.blockbytes(name)
-        r = H.Rec(name); r.init()
+        r = H.Rec(name)
+        if name in H.BLAKES and q % 2: r.init(rnd.getrandbits(32 * H.wordbytes(name)))
+        else: r.init()
         for _ in range(rnd.randrange(1, 5)): r.update(H.content(rnd, rnd.randrange(0, 4) * Bb, 0), padding=False)
         r.update(H.content(rnd, rnd.randrange(0, 3 * Bb), 0), padding=True)
         traces.append(r.trace(dict(kind='random-cuts'))); ctx.mark((name, 'rnd', q))
@@ -95,7 +99,9 @@ def run(ctx):
     from crysp import nilsimsa as N
     from core import B
     nev = []
-    def words(n):
+    def words(n, _k=[0]):
+        _k[0] += 1
+        if _k[0] % 3 == 0: return bytes(rnd.choice([0, 255, 0, 255, 7, 65, 128]) for _ in range(n))      # binary data: zero and 0xff bytes in every window position
         out = b''
         while len(out) < n: out += rnd.choice([b'the', b'rain', b'in', b'spain', b'falls', b'mainly', b'0123', b'\n']) + b' '
         return out[:n]
